@@ -234,8 +234,11 @@ class E2EStream(Stream):
         if len(self.model) != len(self.cases):
             raise RuntimeError("stream %s: model driver produced %d lines for %d cases: %s" % (self.name, len(self.model), len(self.cases), e2[-500:]))
         self.reasons = {}
+        if getattr(self, "impl_only", False):
+            # features outside the model: the implementation's results are kept for the oracle only, no model column
+            self.model = list(self.go)
         for i, (c, a, b) in enumerate(zip(self.cases, self.go, self.model)):
-            r = compare(c, a, b)
+            r = None if getattr(self, "impl_only", False) else compare(c, a, b)
             if r:
                 self.mismatches.append(i)
                 self.reasons[i] = r
